@@ -58,7 +58,7 @@ func parseUrlPath(pathStr string, m meta.Definition) ([]*Path, error) {
 				ident = ident[colon+1:]
 				potential := meta.Find(parentMeta, ident)
 				if potential != nil {
-					if meta.OriginalModule(potential).Ident() == module {
+					if meta.DefiningModule(potential).Ident() == module {
 						seg.Meta = potential
 					}
 				}
